@@ -9,8 +9,9 @@ def run(ctx):
     # code-point sweep: every selected code point as primary content (SetContent: even columns and the last
     # column; Fill) must leave a well-formed stream and - for the forbidden classes - a blank on the display
     swept, events = 0, 0
-    for charset, terms in [("UTF-8", "xterm-256color,vt100,linux" if not q else "xterm-256color,vt100"),
-                           ("ISO8859-1", "xterm-256color"), ("KOI8-R", "vt100")]:
+    plans = [("UTF-8", "xterm-256color"), ("ISO8859-1", "vt100")] if q else \
+        [("UTF-8", "xterm-256color,vt100,linux"), ("ISO8859-1", "xterm-256color"), ("KOI8-R", "vt100")]
+    for charset, terms in plans:
         tf = ctx.work + "/sweep_%s.ndjson" % charset
         s2, _ = ctx.run_vh(["screen", "--sweep", "quick" if q else "full", "--charset", charset, "--terms", terms,
                             "--seed", ctx.seed, "--out", tf], timeout=3400)
@@ -33,5 +34,5 @@ def run(ctx):
                rule="the C01 histories; plus the code-point sweep: all forbidden code points (C0, DEL, C1, Cf, Zl/Zp, Mn/Me, "
                     "surrogates, negative and > 0x10FFFF; a 1/7 sample above U+3000 in the quick tier) through SetContent "
                     "(incl. the last column) and Fill, and every 257th (quick) / every (thorough) other code point with an "
-                    "agreed width through SetContent, under UTF-8 and two 8-bit locales; every written block is lexed by "
+                    "agreed width through SetContent, under UTF-8 and one (quick) / two (thorough) 8-bit locales; every written block is lexed by "
                     "Term.tla and the display compared")
